@@ -645,7 +645,8 @@ void do_op(Ctx& c, int idx, const Op& op)
     kvd(r, "avail", h->get_available_speed());
     kvd(r, "load", h->get_load());
     kvi(r, "pstate", h->get_pstate());
-    if (opts.count("plugin") && opts["plugin"].find("host_energy") != std::string::npos)
+    if (opts.count("plugin") && opts["plugin"].find("host_energy") != std::string::npos &&
+        h->get_property("wattage_per_state") != nullptr)
       kvd(r, "energy", sg_host_get_consumed_energy(h));
   } else if (k == "obs_link") {
     auto* l = links.at(a[0]);
